@@ -1,89 +1,318 @@
-"""C15 — volume-weighted resampling: same permutation and index vector for both outputs, inverse-CDF structure, seeded RNG, validation."""
+"""C15 — volume-weighted resampling: every output pair is an input pair of the same snapshot and is drawn with probability equal to its
+volume, decided region by region of the input space (model-point interpretation); seeded RNG, shapes, validation."""
 
 from __future__ import annotations
 
-import ast
+import itertools
 
 import numpy as np
 
 from .. import alg
-from ..alg import E, lift, ONE
+from ..alg import E, lift, ONE, ZERO
 from ..interp import Interp, RaiseSig
-from ..values import symarr, SymArr, SymIdx, keyof
+from ..values import symarr, SymArr, SymIdx, Opaque, Unsupported, keyof
 from .common import public, defloc, short
-from .. import flow
 
 LEVEL = "other"
+DOTTED = "pydrex.stats.resample_orientations"
 
+
+# ----------------------------------------------------------------------------------------------------------------- regions of the simplex
+
+class Snapshot:
+    """Volumes of one snapshot in one region of the simplex: symbolic cells (exact zeros are the constant 0, equal volumes share a symbol),
+    numeric stand-ins that realise the region (dyadic, so partial sums are exact), and the substitution that puts the cells on the simplex."""
+
+    def __init__(self, label, prefix, values):
+        self.label = label
+        syms = {}
+        self.cells, self.model = [], {}
+        for v in values:
+            if v == 0:
+                self.cells.append(ZERO)
+                continue
+            if v not in syms:
+                syms[v] = alg.psym(f"{prefix}v{len(syms)}")
+                (a,) = alg.atoms_of(syms[v])
+                self.model[a] = float(v)
+            self.cells.append(syms[v])
+        # the simplex: the most frequent-then-largest symbol is expressed by the others
+        mult = {v: values.count(v) for v in syms}
+        ev = max(syms, key=lambda v: (v * mult[v], v))
+        rest = sum((syms[v] * mult[v] for v in syms if v != ev), ZERO)
+        (ea,) = alg.atoms_of(syms[ev])
+        self.simplex = {ea: (ONE - rest) / mult[ev]}
+        self.positive = sum(1 for v in values if v != 0)
+
+
+def regions(M):
+    """(label, values) covering the order types of M volumes on the simplex: all strict orders, exact zeros in every position, equal
+    volumes, one dominant grain."""
+    out = []
+    if M == 1:
+        return [("single grain", (1.0,))]
+    if M == 2:
+        return [("ascending", (0.25, 0.75)), ("descending", (0.75, 0.25)), ("equal", (0.5, 0.5)), ("first zero", (0.0, 1.0)), ("last zero", (1.0, 0.0))]
+    if M == 3:
+        for p in itertools.permutations((0.125, 0.375, 0.5)):
+            out.append((f"strict order {tuple(sorted(range(3), key=lambda i: p[i]))}", p))
+        out.append(("one dominant grain", (0.0625, 0.03125, 0.90625)))
+        for z in range(3):
+            for a, b in ((0.375, 0.625), (0.625, 0.375)):
+                v = [a, b]
+                v.insert(z, 0.0)
+                out.append((f"zero volume at {z}, others {'ascending' if a < b else 'descending'}", tuple(v)))
+        for k in range(3):
+            v = [0.0, 0.0, 0.0]
+            v[k] = 1.0
+            out.append((f"all volume in grain {k}", tuple(v)))
+        for lone in range(3):
+            for a, b in ((0.25, 0.5), (0.375, 0.25)):
+                v = [a, a, a]
+                v[lone] = b
+                out.append((f"two equal volumes, the other ({lone}) {'larger' if b > a else 'smaller'}", tuple(v)))
+        out.append(("all equal", (1 / 3, 1 / 3, 1 / 3)))
+        return out
+    if M == 4:
+        return [("strict ascending", (0.0625, 0.1875, 0.25, 0.5)), ("strict descending", (0.5, 0.25, 0.1875, 0.0625)),
+                ("shuffled with a zero in the middle", (0.5, 0.0, 0.125, 0.375)), ("two zeros first", (0.0, 0.0, 0.625, 0.375)),
+                ("equal pairs", (0.125, 0.375, 0.125, 0.375)), ("zero last, equal others", (0.25, 0.5, 0.25, 0.0))]
+    raise ValueError(M)
+
+
+# ----------------------------------------------------------------------------------------------------------------- one region
+
+class Inconclusive(Exception):
+    pass
+
+
+def interpret(ctx, A, fr, ns, seed, model, u_over):
+    I = Interp(ctx.program)
+    I.model = dict(model)
+    I.model_u = dict(u_over)
+    f = public(ctx, I, DOTTED)
+    out = I.call(f, (A.copy(), fr.copy()), {"n_samples": ns, "seed": seed})
+    return I, out
+
+
+def slot_pick(out, A, fr, i, k):
+    """index of the input grain of snapshot i that output slot (i, k) holds; raises Inconclusive / returns (None, why) for a non-grain"""
+    o, v = out[0][i, k], out[1][i, k]
+    if isinstance(o, (Opaque, SymArr)) or isinstance(v, (Opaque, SymArr)) or any(isinstance(c, Opaque) for c in np.asarray(o, dtype=object).flat):
+        raise Inconclusive("an output slot is not a plain selection of input cells (unmodelled operation on the path)")
+    N, M = fr.shape
+    hits = [g for g in range(M) if all(lift(x) == lift(y) for x, y in zip(np.asarray(o, dtype=object).flat, A[i, g].flat))]
+    if not hits:
+        other = [(j, g) for j in range(N) for g in range(M) if j != i and all(lift(x) == lift(y) for x, y in zip(np.asarray(o, dtype=object).flat, A[j, g].flat))]
+        return None, (f"orientation in output slot ({i}, {k}) is grain {other[0][1]} of snapshot {other[0][0]}, not a grain of snapshot {i}" if other
+                      else f"orientation in output slot ({i}, {k}) is not an input orientation: {short(np.asarray(o, dtype=object).flat[0], 60)}")
+    g = hits[0]
+    if lift(v) != lift(fr[i, g]):
+        return None, f"output slot ({i}, {k}) pairs the orientation of grain {g} with the volume {short(v, 40)}, not with its own volume {short(fr[i, g], 40)}"
+    return g, ""
+
+
+def region_check(ctx, tag, loc, N, M, ns, snaps, seed):
+    """returns list of (rule, construct, verdict, detail)"""
+    res = []
+    A = symarr("A", (N, M, 3, 3))
+    fr = np.empty((N, M), dtype=object)
+    model, simplex = {}, {}
+    for i, s in enumerate(snaps):
+        for g in range(M):
+            fr[i, g] = s.cells[g]
+        model.update(s.model)
+        simplex.update(s.simplex)
+    n_s = M if ns is None else ns
+
+    def on_simplex(e):
+        return alg.subst(lift(e), simplex)
+
+    try:
+        I0, out0 = interpret(ctx, A, fr, ns, seed, model, {})
+    except RaiseSig as r:
+        return [("C15.pairing", tag, False, f"raises {r.exc.typename} on well-formed input (line {getattr(r.exc.node, 'lineno', '?')})")], None
+    oko = isinstance(out0, tuple) and len(out0) == 2 and getattr(out0[0], "shape", None) == (N, n_s, 3, 3) and getattr(out0[1], "shape", None) == (N, n_s)
+    res.append(("C15.shapes", tag, oko, f"shapes {getattr(out0[0], 'shape', None)}, {getattr(out0[1], 'shape', None)}; expected {(N, n_s, 3, 3)}, {(N, n_s)}"))
+    if not oko:
+        return res, I0
+    variates = dict(I0.model_uatoms)          # Atom -> (call, flat)
+    slots = [(i, k) for i in range(N) for k in range(n_s)]
+    moves = {sl: [] for sl in slots}           # slot -> [(variate atom, pieces)]
+    base_picks = {}
+    for sl in slots:
+        g, why = slot_pick(out0, A, fr, *sl)
+        if g is None:
+            res.append(("C15.pairing", f"{tag}:slot {sl}", False, why))
+            return res, I0
+        base_picks[sl] = g
+    for ua, pos in sorted(variates.items(), key=lambda kv: kv[1]):
+        pieces, x = [], 2.0 ** -40
+        for _ in range(4 * M + 6):
+            try:
+                I, out = interpret(ctx, A, fr, ns, seed, model, {pos: x})
+            except RaiseSig as r:
+                res.append(("C15.distribution", f"{tag}:variate {pos}", False,
+                            f"raises {r.exc.typename} for a variate of about {x:.4g} (line {getattr(r.exc.node, 'lineno', '?')})"))
+                return res, I0
+            bs = I.model_bounds.get(ua, [])
+            lo = max(((I.model_val(e), e) for kind, e in bs if kind == "lo"), key=lambda t: t[0], default=(0.0, ZERO))
+            hi = min(((I.model_val(e), e) for kind, e in bs if kind == "hi"), key=lambda t: t[0], default=(1.0, ONE))
+            if lo[0] is None or hi[0] is None:
+                raise Inconclusive("a bound of a variate cannot be evaluated at the model point")
+            picks = {}
+            for sl in slots:
+                g, why = slot_pick(out, A, fr, *sl)
+                if g is None:
+                    res.append(("C15.pairing", f"{tag}:slot {sl}", False, why + f" (variate {pos} about {x:.4g})"))
+                    return res, I0
+                picks[sl] = g
+            pieces.append((lo[1], hi[1], lo[0], hi[0], picks))
+            if hi[0] >= 1.0 - 1e-12:
+                break
+            if hi[0] <= x:
+                raise Inconclusive("the sweep over a variate does not advance")
+            x = hi[0] + 2.0 ** -40
+        else:
+            raise Inconclusive("the sweep over a variate did not reach 1")
+        for sl in slots:
+            if len({p[4][sl] for p in pieces}) > 1:
+                moves[sl].append((ua, pos, pieces))
+    # one obligation per slot
+    for sl in slots:
+        i, k = sl
+        snap = snaps[i]
+        ctag = f"{tag}:slot {sl}"
+        res.append(("C15.pairing", ctag, True, ""))
+        if len(moves[sl]) > 1:
+            res.append(("C15.distribution", ctag, "inconclusive", f"the slot depends on {len(moves[sl])} variates jointly; not judged"))
+            continue
+        if not moves[sl]:
+            g = base_picks[sl]
+            ok = snap.positive == 1 and lift(fr[i, g]) != ZERO
+            res.append(("C15.distribution", ctag, ok, "" if ok else
+                        f"the slot holds grain {g} whatever the variates are, but snapshot {i} has {snap.positive} grains of positive volume: "
+                        f"grain {g} is drawn with probability 1, not {short(fr[i, g], 30)}"))
+            continue
+        ua, pos, pieces = moves[sl][0]
+        # the pieces tile [0, 1)
+        problems = []
+        if alg.decide(on_simplex(pieces[0][0]), ZERO)[0] != "equal":
+            problems.append(f"the first interval starts at {short(pieces[0][0], 30)}, not 0")
+        for p, q in zip(pieces, pieces[1:]):
+            if alg.decide(on_simplex(p[1]), on_simplex(q[0]))[0] != "equal":
+                problems.append(f"gap between intervals: one ends at {short(p[1], 30)}, the next starts at {short(q[0], 30)}")
+        if alg.decide(on_simplex(pieces[-1][1]), ONE)[0] != "equal":
+            problems.append(f"the last interval ends at {short(on_simplex(pieces[-1][1]), 40)}, not 1")
+        if problems:
+            res.append(("C15.distribution", ctag, "inconclusive", "; ".join(problems[:2]) + " (the variate is compared with quantities that do not partition [0, 1); not judged)"))
+            continue
+        bad = []
+        for g in range(M):
+            length = sum((p[1] - p[0] for p in pieces if p[4][sl] == g), ZERO)
+            v, info = alg.decide(on_simplex(length), on_simplex(fr[i, g]))
+            if v != "equal":
+                bad.append(f"grain {g} (volume {short(fr[i, g], 24)}) is drawn on a set of variates of measure {short(on_simplex(length), 40)}")
+        res.append(("C15.distribution", ctag, not bad, "; ".join(bad[:3]) + (f" [intervals of variate {pos}: " + ", ".join(
+            f"({short(p[0], 16)}, {short(p[1], 16)}] -> grain {p[4][sl]}" for p in pieces[:5]) + "]" if bad else "")))
+    return res, I0
+
+
+# ----------------------------------------------------------------------------------------------------------------- the check
 
 def run(ctx):
     ctx.explanation = (
-        "stats.resample_orientations is interpreted on symbolic stacks with data-dependent index vectors kept symbolic (argsort, searchsorted, "
-        "fancy indexing as uninterpreted take operations).  Decided per snapshot: both outputs are take(take(x, pi), k) with the SAME "
-        "permutation pi = argsort(volumes of that snapshot) and the SAME index vector k; k = searchsorted(cumsum(volumes[pi]) with its last "
-        "entry pinned to 1, u) with u = rng.random(n_samples) drawn from a generator seeded with the seed argument (the only randomness); "
-        "hence every output pair is an input pair of the same snapshot and k <= M-1; output shapes (N, n_samples, 3, 3) and (N, n_samples) "
-        "with n_samples defaulting to M; malformed shapes raise ValueError before any other processing.  Not decided: the sampling "
-        "distribution itself (statistical); u = 0.0 exactly selects index 0 even for a zero-volume grain (measure zero; observation).")
-    ctx.trusted += ["numpy: argsort returns a permutation, a[p][k] is composition of takes, searchsorted returns indices in [0, len]",
-                    "Generator.random draws from [0, 1)"]
-    ctx.rule("C15.pairing", "out_orientations[i] == take(take(orient_i, pi), k) and out_fractions[i] == take(take(frac_i, pi), k) with identical pi and k")
-    ctx.rule("C15.inverse-cdf", "pi = argsort(frac_i); k = searchsorted(cumsum(frac_i[pi]) with [-1] := 1, rng.random(n_samples))")
-    ctx.rule("C15.rng", "the generator is default_rng(seed=<seed argument>) and is the only randomness")
+        "stats.resample_orientations is interpreted region by region of the volume simplex (every strict order of the volumes, exact zeros in "
+        "every position, equal volumes, one dominant grain; M = 1..4 grains, N = 1..3 snapshots).  In a region the volumes and the uniform "
+        "variates stay symbolic; numeric stand-ins that realise the region only DECIDE the data-dependent sorts, searches and comparisons, "
+        "and every such decision on a variate is logged as a bound.  Sweeping each variate over [0, 1) yields the intervals on which the "
+        "function takes one path; per output slot: the (orientation, volume) stored is one input pair of the same snapshot on every interval "
+        "(C15.pairing), the intervals tile [0, 1), and for every grain the total length of the intervals that select it equals its volume as "
+        "a polynomial identity on the simplex (C15.distribution) — so zero-volume grains are selected on a null set only, and a grain is "
+        "drawn with probability equal to its volume, independently of HOW the function sorts, accumulates or searches.  Plus: one generator "
+        "seeded with the seed argument is the only randomness and one variate is drawn per output slot with default options; two calls with "
+        "the same seed select identically; output shapes; malformed shapes raise ValueError before the generator exists.  Not decided: the "
+        "quality of NumPy's generator; floating-point rounding of the cumulative sums; regions of the simplex other than the order types listed.")
+    ctx.trusted += ["numpy: argsort/sort order a row, searchsorted returns the insertion position, fancy indexing selects cells",
+                    "Generator.random draws independent uniform variates from [0, 1)"]
+    ctx.assume("within a region every logged decision keeps its outcome (they are order comparisons between volumes, partial sums and variates)")
+    ctx.rule("C15.pairing", "every output slot (i, k) holds the orientation AND the volume of one and the same input grain of snapshot i, for every interval of every variate")
+    ctx.rule("C15.distribution", "per output slot: the variate intervals tile [0, 1) and the total length selecting grain g equals volume f_g on the simplex "
+                                 "(polynomial identity), in every region")
+    ctx.rule("C15.rng", "the generator is default_rng(seed=<seed argument>), it is the only randomness, one variate per output slot is drawn with default options")
     ctx.rule("C15.shapes", "output shapes (N, n_samples, 3, 3) and (N, n_samples); n_samples defaults to M")
     ctx.rule("C15.validate", "inconsistent input shapes raise ValueError before the generator is created")
-    dotted = "pydrex.stats.resample_orientations"
-    loc = defloc(ctx, dotted)
-    for (N, M, ns) in ((1, 3, None), (2, 3, 5), (3, 2, 1)):
-        I = Interp(ctx.program)
-        f = public(ctx, I, dotted)
-        A = symarr("A", (N, M, 3, 3))
-        fr = symarr("f", (N, M), positive=True)
-        seed = alg.sym("seed")
-        tag = f"N={N},M={M},n_samples={ns}"
+    loc = defloc(ctx, DOTTED)
+    seed = alg.sym("seed")
+    configs = []
+    r3 = regions(3)
+    for lab, vals in r3:
+        configs.append((1, 3, None, [(lab, vals)]))
+    for j in range(0, len(r3), 3 if ctx.tier == "quick" else 1):
+        configs.append((2, 3, 2, [r3[j], r3[(j * 7 + 5) % len(r3)]]))
+    for lab, vals in regions(4):
+        configs.append((1, 4, 1, [(lab, vals)]))
+    r2 = regions(2)
+    for j in range(len(r2)):
+        configs.append((3, 2, 1, [r2[j], r2[(j + 1) % len(r2)], r2[(j + 3) % len(r2)]]))
+    configs.append((1, 1, None, [regions(1)[0]]))
+    configs.append((1, 1, 3, [regions(1)[0]]))
+    if ctx.tier != "quick":
+        for lab, vals in r3:
+            configs.append((1, 3, 5, [(lab, vals)]))
+    n_regions = 0
+    for N, M, ns, snaps_ in configs:
+        snaps = [Snapshot(lab, f"s{i}", vals) for i, (lab, vals) in enumerate(snaps_)]
+        tag = f"N={N},M={M},n_samples={ns}:" + " | ".join(s.label for s in snaps)
+        n_regions += 1
         try:
-            out = I.call(f, (A, fr), {"n_samples": ns, "seed": seed})
-        except RaiseSig as r:
-            ctx.ob("C15.pairing", tag, False, f"raises {r.exc.typename} on well-formed input", loc)
+            res, I0 = region_check(ctx, tag, loc, N, M, ns, snaps, seed)
+        except Inconclusive as ex:
+            ctx.ob("C15.distribution", tag, "inconclusive", str(ex), loc)
             continue
-        n_s = M if ns is None else ns
-        oko = isinstance(out, tuple) and len(out) == 2 and getattr(out[0], "shape", None) == (N, n_s, 3, 3) and getattr(out[1], "shape", None) == (N, n_s)
-        ctx.ob("C15.shapes", tag, oko, f"shapes {getattr(out[0], 'shape', None)}, {getattr(out[1], 'shape', None)}", loc)
-        if not oko:
+        except (Unsupported, alg.AlgError) as ex:
+            ctx.ob("C15.distribution", tag, "inconclusive", f"outside the interpreted subset: {str(ex)[:140]}", loc)
             continue
-        draws = [e for e in I.trace if e.kind == "rng-draw"]
-        rngs = [e for e in I.trace if e.kind == "rng"]
-        ctx.ob("C15.rng", tag, len(rngs) == 1 and rngs[0].data == ("default_rng", keyof(seed)) and len(draws) == N and all(d.data[0] == "random" for d in draws),
-               f"generators {[e.data for e in rngs]}, draws {[d.data[0] for d in draws]}", loc)
-        for i in range(N):
-            oo = {id(c): c for c in out[0][i].flat}
-            ff = {id(c): c for c in out[1][i].flat}
-            if len(oo) != 1 or len(ff) != 1:
-                ctx.ob("C15.pairing", f"{tag}:snapshot {i}", False, "output cells of one snapshot do not come from one selection", loc)
-                continue
-            o, fo = next(iter(oo.values())), next(iter(ff.values()))
-            ok, why, parts = analyse(o, fo, A[i], fr[i])
-            ctx.ob("C15.pairing", f"{tag}:snapshot {i}", ok, why, loc)
-            if parts:
-                pi, k = parts
-                cdf = inverse_cdf(pi, k, fr[i], n_s, seed, i + 1)
-                ctx.ob("C15.inverse-cdf", f"{tag}:snapshot {i}", cdf[0], cdf[1], loc)
-    ctx.floor("C15.pairing", 6)
+        for rule, construct, verdict, detail in res:
+            ctx.ob(rule, construct, verdict, detail, loc)
+        if I0 is not None:
+            n_s = M if ns is None else ns
+            draws = [e for e in I0.trace if e.kind == "rng-draw"]
+            rngs = [e for e in I0.trace if e.kind == "rng"]
+            opts = [d.data[4] for d in draws if len(d.data) > 4 and d.data[4]]
+            ok = len(rngs) == 1 and rngs[0].data == ("default_rng", keyof(seed)) and all(d.data[0] == "random" for d in draws) \
+                and len(I0.model_uatoms) == N * n_s and not opts
+            ctx.ob("C15.rng", tag, ok, f"generators {[e.data for e in rngs]}, draws {[d.data[0] for d in draws]}, variates {len(I0.model_uatoms)} for {N * n_s} slots"
+                   + (f", non-default options {opts} (a narrower dtype makes exact 0.0 draws, hence zero-volume grains, 2^29 times more likely)" if opts else ""), loc)
+    ctx.count("regions interpreted", n_regions)
+    ctx.floor("C15.pairing", 60)
+    ctx.floor("C15.distribution", 60)
+    ctx.floor("C15.rng", 30)
     # reproducibility: a second call with the same arguments (after an unrelated call in between) selects with the same draws
     ctx.rule("C15.reproducible", "two calls with the same seed and inputs in one process return the same selections (the generator is created afresh per call, "
                                  "so the k-th call does not continue the stream of an earlier one)")
-    I = Interp(ctx.program)
-    f = public(ctx, I, dotted)
-    A, fr, seed = symarr("A", (2, 3, 3, 3)), symarr("f", (2, 3), positive=True), alg.sym("seed")
     try:
+        I = Interp(ctx.program)
+        s0, s1 = Snapshot("a", "s0", (0.125, 0.375, 0.5)), Snapshot("b", "s1", (0.5, 0.0, 0.5))
+        I.model = {**s0.model, **s1.model}
+        f = public(ctx, I, DOTTED)
+        A = symarr("A", (2, 3, 3, 3))
+        fr = np.empty((2, 3), dtype=object)
+        for i, s in enumerate((s0, s1)):
+            for g in range(3):
+                fr[i, g] = s.cells[g]
         first = I.call(f, (A.copy(), fr.copy()), {"seed": seed})
-        I.call(f, (symarr("B", (1, 2, 3, 3)), symarr("g", (1, 2), positive=True)), {"seed": alg.sym("seed2"), "n_samples": 4})
+        sB = Snapshot("c", "s2", (0.25, 0.75))
+        I.model.update(sB.model)
+        I.call(f, (symarr("B", (1, 2, 3, 3)), np.array([sB.cells], dtype=object)), {"seed": alg.sym("seed2"), "n_samples": 4})
         second = I.call(f, (A.copy(), fr.copy()), {"seed": seed})
         same = all(keyof(a) == keyof(b) for x, y in zip(first, second) for a, b in zip(np.asarray(x, dtype=object).flat, np.asarray(y, dtype=object).flat))
         ctx.ob("C15.reproducible", "same seed, same inputs, called twice", same,
                "the second call selects with different draws than the first" if not same else "identical selections", loc)
     except RaiseSig as r:
         ctx.ob("C15.reproducible", "same seed, same inputs, called twice", False, f"raises {r.exc.typename}", loc)
+    except (Unsupported, alg.AlgError) as ex:
+        ctx.ob("C15.reproducible", "same seed, same inputs, called twice", "inconclusive", f"outside the interpreted subset: {str(ex)[:140]}", loc)
     ctx.floor("C15.reproducible", 1)
     # validation
     bad_inputs = {
@@ -99,63 +328,14 @@ def run(ctx):
     }
     for name, (A, fr) in bad_inputs.items():
         I = Interp(ctx.program)
-        f = public(ctx, I, dotted)
+        f = public(ctx, I, DOTTED)
         try:
             I.call(f, (A, fr))
             ctx.ob("C15.validate", name, False, "malformed input accepted", loc)
         except RaiseSig as r:
             early = not any(e.kind in ("rng", "rng-draw") for e in I.trace)
             ctx.ob("C15.validate", name, r.exc.typename == "ValueError" and early, f"raised {r.exc.typename}; before RNG creation: {early}", loc)
+        except (Unsupported, alg.AlgError) as ex:
+            ctx.ob("C15.validate", name, "inconclusive", f"outside the interpreted subset: {str(ex)[:140]}", loc)
     ctx.floor("C15.validate", 9)
-    ctx.observe("rng.random() == 0.0 exactly maps to index 0 of the sorted volumes, which may be a zero-volume grain (probability 2^-53 per draw)")
-
-
-def analyse(o, fo, orient, frac):
-    """o, fo: SymArr values stored into the two outputs for one snapshot."""
-    def unpack(x):
-        if not (isinstance(x, SymArr) and x.op == "take"):
-            return None
-        inner, k = x.args
-        if isinstance(k, SymIdx) and k.op == "compose" and not x.mods:
-            # x[pi[k]] is the same composition of takes as x[pi][k]
-            inner, k = SymArr("take", (inner, k.args[0])), k.args[1]
-        if not (isinstance(inner, SymArr) and inner.op == "take" and not inner.mods and not x.mods):
-            return None
-        base, pi = inner.args
-        return base, pi, k
-    uo, uf = unpack(o), unpack(fo)
-    if uo is None or uf is None:
-        return False, f"outputs are not of the form take(take(x, pi), k): {o!r} / {fo!r}", None
-    if not (isinstance(uo[0], np.ndarray) and keyof(uo[0]) == keyof(orient)):
-        return False, "orientation output is not selected from this snapshot's orientations", None
-    if not (isinstance(uf[0], np.ndarray) and keyof(uf[0]) == keyof(frac)):
-        return False, "volume output is not selected from this snapshot's volumes", None
-    if keyof(uo[1]) != keyof(uf[1]):
-        return False, "the two outputs use different permutations", None
-    if keyof(uo[2]) != keyof(uf[2]):
-        return False, "the two outputs use different index vectors: (orientation, volume) pairs are broken", None
-    return True, "", (uo[1], uo[2])
-
-
-def inverse_cdf(pi, k, frac, n_s, seed, call_no):
-    if not (isinstance(pi, SymIdx) and pi.op == "argsort" and keyof(pi.args[0]) == keyof(frac)):
-        return False, f"permutation is not argsort of this snapshot's volumes: {pi!r}"
-    if not (isinstance(k, SymIdx) and k.op == "searchsorted"):
-        return False, f"index vector is not a searchsorted result: {k!r}"
-    cum, u, kw = k.args
-    if not (isinstance(cum, SymArr) and cum.op == "cumsum"):
-        return False, "searchsorted is not applied to a cumulative sum"
-    src = cum.args[0]
-    if not (isinstance(src, SymArr) and src.op == "take" and keyof(src.args[1]) == keyof(pi) and keyof(src.args[0]) == keyof(frac) and not src.mods):
-        return False, "the cumulative sum is not over the volumes sorted by the same permutation"
-    pinned = [(i, v) for i, v in cum.mods]
-    if not (len(pinned) == 1 and pinned[0][0] == -1 and lift(pinned[0][1]) == ONE):
-        return False, f"the last cumulative value is not pinned to 1 (in-place stores: {pinned})"
-    if not (isinstance(u, SymArr) and u.op == "rng.random" and u.args[0] == keyof(seed) and u.args[1] == call_no
-            and len(u.args[2]) == 1 and int(u.args[2][0]) == n_s):
-        return False, f"uniform variates are not rng.random(n_samples) of the seeded generator: {u!r} {getattr(u, 'args', None)}"
-    if len(u.args) > 3 and u.args[3]:
-        return False, f"uniform variates are drawn with non-default options {u.args[3]} (a narrower dtype makes exact 0.0 draws, hence zero-volume grains, 2^29 times more likely and distorts small probabilities)"
-    if dict(kw).get("side", "left") != "left":
-        return False, "searchsorted side changed"
-    return True, ""
+    ctx.observe("a variate of exactly 0.0 maps to the first sorted grain, which may have zero volume (a null set: probability 2^-53 per draw)")
